@@ -63,6 +63,7 @@ type World struct {
 	reflectTypeT    types.Type
 	emptyStructT    types.Type
 	structFieldT    types.Type
+	jsonT           *jsonTypes
 	overlay         map[string][]byte
 	loadTime        time.Duration
 	repoDir         string
@@ -73,6 +74,7 @@ var interpPkgPrefixes = []string{
 	repoMod,
 	"github.com/secure-systems-lab/go-securesystemslib/dsse",
 	"github.com/secure-systems-lab/go-securesystemslib/signerverifier",
+	"github.com/secure-systems-lab/go-securesystemslib/cjson",
 	"errors",
 	"io",
 	"path",
@@ -355,7 +357,7 @@ func (h *HarnessRun) recordOutcomeViolation(in *Interp, kind, msg string) {
 func (h *HarnessRun) runPath(item workItem, sol *Solver, pathNo int64) (sibs []workItem) {
 	in := &Interp{W: h.W, H: h, tf: NewTermFactory(), sol: sol, prefix: item.prefix, fb: map[int]bool{}, fv: map[int]uint64{},
 		globals: map[*ssa.Global]*Cell{}, ufs: map[string]*Term{}, reach: map[string]int{},
-		gwrites: map[string]bool{}, fnsSeen: map[*ssa.Function]int{}, wraps: map[string]Iface{}}
+		gwrites: map[string]bool{}, fnsSeen: map[*ssa.Function]int{}, wraps: map[string]Iface{}, jsonBlobs: map[*Backing]*jsonBlob{}}
 	sol.Reset()
 	if item.model != nil {
 		in.setModel(item.model)
